@@ -361,6 +361,15 @@ pub mod c09_alias {
             Stop::Fail(m) => Stop::Fail(format!("a = buffer[{}..{}], b = buffer[{}..{}] of one buffer: {}", a.0, a.1, b.0, b.1, m)),
             o => o,
         })?;
+        // Ukkonen takes pattern and text as two slices as well: views against owned copies
+        if !x.is_empty() {
+            use bio::pattern_matching::ukkonen::{unit_cost, Ukkonen};
+            let k = (c.bound % 4) as usize;
+            let (xo, yo) = (x.to_vec(), y.to_vec());
+            let want: Vec<(usize, usize)> = Ukkonen::with_capacity(x.len(), unit_cost).find_all_end(&xo, &yo, k).take(y.len() + 2).collect();
+            let got: Vec<(usize, usize)> = Ukkonen::with_capacity(x.len(), unit_cost).find_all_end(x, y, k).take(y.len() + 2).collect();
+            ensure!(got == want, "Ukkonen::find_all_end(pattern = buffer[{}..{}] = {:?}, text = buffer[{}..{}] = {:?}, k={}) = {:?}; on separate copies of the same sequences: {:?}", a.0, a.1, lossy(x), b.0, b.1, lossy(y), k, got, want);
+        }
         let mut pass = Pass::new(!x.is_empty() && !y.is_empty());
         alias_classes(&mut pass, a, b);
         pass.add_if(x.len() == y.len(), "equal lengths (hamming checked)");
@@ -372,11 +381,243 @@ pub mod c09_alias {
     }
 }
 
+
+// ---------------------------------------------------------------------------------------------
+// C07: query iterators of the AVL interval tree (shared and mutable) and of the annotation map.
+// The order in which overlapping entries are yielded is the implementation's choice, so the model is the
+// plain next() sequence of a second query (whose contents C07/history decides).
+pub mod c07_proto {
+    use super::*;
+    use bio::data_structures::annot_map::AnnotMap;
+    use bio::data_structures::interval_tree::IntervalTree;
+    use bio_types::annot::contig::Contig;
+    use bio_types::strand::ReqStrand;
+
+    #[derive(Serialize, Deserialize, Debug, Clone)]
+    pub struct Case {
+        /// (start, width >= 1)
+        pub inserts: Vec<(u8, u8)>,
+        pub query: (u8, u8),
+        pub script: Vec<ItOp>,
+    }
+
+    pub fn check(c: &Case) -> R {
+        ensure!(c.inserts.iter().all(|x| x.1 >= 1) && c.query.1 >= 1, "harness: zero-width interval");
+        let mut tree: IntervalTree<i64, usize> = IntervalTree::new();
+        let mut amap: AnnotMap<String, usize> = AnnotMap::new();
+        for (d, &(s, w)) in c.inserts.iter().enumerate() {
+            tree.insert(s as i64..s as i64 + w as i64, d);
+            amap.insert_at(d, &Contig::new("chr".to_string(), s as isize, w as usize, ReqStrand::Forward));
+        }
+        let (qs, qe) = (c.query.0 as i64, c.query.0 as i64 + c.query.1 as i64);
+        let cap = c.inserts.len() + 2;
+        let hdr = format!("intervals {:?} (start, width), query {}..{}", c.inserts, qs, qe);
+        let model: Vec<(i64, i64, usize)> = tree.find(qs..qe).take(cap).map(|e| (e.interval().start, e.interval().end, *e.data())).collect();
+        ensure!(model.len() < cap, "IntervalTree::find: {}: the iterator does not end", hdr);
+        let o1 = drive(&format!("IntervalTree::find: {}", hdr), tree.find(qs..qe), model.clone(), |e| (e.interval().start, e.interval().end, *e.data()), &c.script).map_err(Stop::Fail)?;
+        let o2 = drive(&format!("IntervalTree::find_mut: {}", hdr), tree.find_mut(qs..qe), model.iter().map(|m| (m.0, m.1)).collect(), |e| (e.interval().start, e.interval().end), &c.script).map_err(Stop::Fail)?;
+        let q = Contig::new("chr".to_string(), c.query.0 as isize, c.query.1 as usize, ReqStrand::Forward);
+        let amodel: Vec<(i64, i64, usize)> = amap.find(&q).take(cap).map(|e| (e.interval().start as i64, e.interval().end as i64, *e.data())).collect();
+        let o3 = drive(&format!("AnnotMap::find: {}", hdr), amap.find(&q), amodel, |e| (e.interval().start as i64, e.interval().end as i64, *e.data()), &c.script).map_err(Stop::Fail)?;
+        let mut pass = Pass::new(model.len() >= 2);
+        proto_classes(&mut pass, &c.script, o1.positional_after_advance || o2.positional_after_advance || o3.positional_after_advance, model.len());
+        Ok(pass)
+    }
+
+    pub fn strat(_t: Tier) -> BoxedStrategy<Case> {
+        (proptest::collection::vec((0u8..=40, 1u8..=20), 0..=14), (0u8..=40, 1u8..=30), script_strategy(8)).prop_map(|(inserts, query, script)| Case { inserts, query, script }).boxed()
+    }
+}
+
+// ---------------------------------------------------------------------------------------------
+// C09 / C10: the match iterators of Myers (end positions, full matches, lazy matches; single-word and
+// block-based) and Ukkonen. Model: the plain next() sequence (decided by C09/myers, C09/ukkonen, C10/traceback).
+pub mod c09_proto {
+    use super::*;
+    use bio::pattern_matching::myers::{long, Myers};
+    use bio::pattern_matching::ukkonen::{unit_cost, Ukkonen};
+
+    #[derive(Serialize, Deserialize, Debug, Clone)]
+    pub struct Case {
+        pub pattern: B,
+        pub text: B,
+        pub k: u8,
+        pub script: Vec<ItOp>,
+    }
+
+    pub fn check(c: &Case) -> R {
+        let (p, t): (&[u8], &[u8]) = (&c.pattern, &c.text);
+        ensure!(!p.is_empty() && p.len() <= 64, "harness: pattern length {}", p.len());
+        let hdr = format!("pattern {:?} text {:?} k={}", lossy(p), lossy(t), c.k);
+        let cap = t.len() + 2;
+        let mut paa = false;
+        let mut items = 0usize;
+        {
+            let my: Myers<u64> = Myers::new(p);
+            let model: Vec<(usize, u8)> = my.find_all_end(t, c.k).take(cap).collect();
+            items = items.max(model.len());
+            paa |= drive(&format!("Myers<u64>::find_all_end: {}", hdr), my.find_all_end(t, c.k), model, |x| x, &c.script).map_err(Stop::Fail)?.positional_after_advance;
+        }
+        {
+            let mut my: Myers<u64> = Myers::new(p);
+            let model: Vec<(usize, usize, u8)> = my.find_all(t, c.k).take(cap).collect();
+            paa |= drive(&format!("Myers<u64>::find_all: {}", hdr), my.find_all(t, c.k), model, |x| x, &c.script).map_err(Stop::Fail)?.positional_after_advance;
+            let model: Vec<(usize, u8)> = my.find_all_lazy(t, c.k).take(cap).collect();
+            paa |= drive(&format!("Myers<u64>::find_all_lazy: {}", hdr), my.find_all_lazy(t, c.k), model, |x| x, &c.script).map_err(Stop::Fail)?.positional_after_advance;
+        }
+        {
+            let mut my: long::Myers<u8> = long::Myers::new(p);
+            let k = c.k as usize;
+            let model: Vec<(usize, usize)> = my.find_all_end(t, k).take(cap).collect();
+            paa |= drive(&format!("long::Myers<u8>::find_all_end: {}", hdr), my.find_all_end(t, k), model, |x| x, &c.script).map_err(Stop::Fail)?.positional_after_advance;
+            let model: Vec<(usize, usize, usize)> = my.find_all(t, k).take(cap).collect();
+            paa |= drive(&format!("long::Myers<u8>::find_all: {}", hdr), my.find_all(t, k), model, |x| x, &c.script).map_err(Stop::Fail)?.positional_after_advance;
+            let model: Vec<(usize, usize)> = my.find_all_lazy(t, k).take(cap).collect();
+            paa |= drive(&format!("long::Myers<u8>::find_all_lazy: {}", hdr), my.find_all_lazy(t, k), model, |x| x, &c.script).map_err(Stop::Fail)?.positional_after_advance;
+        }
+        {
+            let mut uk = Ukkonen::with_capacity(p.len(), unit_cost);
+            let model: Vec<(usize, usize)> = uk.find_all_end(p, t, c.k as usize).take(cap).collect();
+            paa |= drive(&format!("Ukkonen::find_all_end: {}", hdr), uk.find_all_end(p, t, c.k as usize), model, |x| x, &c.script).map_err(Stop::Fail)?.positional_after_advance;
+        }
+        let mut pass = Pass::new(items >= 2);
+        proto_classes(&mut pass, &c.script, paa, items);
+        pass.add_if(p.len() > 8, "pattern longer than one u8 block");
+        Ok(pass)
+    }
+
+    pub fn strat(_t: Tier) -> BoxedStrategy<Case> {
+        (1u8..=3, prop_oneof![3 => 1usize..=6, 1 => 9usize..=20], 0usize..=24)
+            .prop_flat_map(|(sigma, m, n)| (gen::seq(sigma, b'a', m), gen::seq(sigma, b'a', n), 0u8..=3, script_strategy(8)))
+            .prop_map(|(pattern, text, k, script)| Case { pattern: B(pattern), text: B(text), k, script })
+            .boxed()
+    }
+}
+
+// ---------------------------------------------------------------------------------------------
+// C11 / C12 / C13: record iterators of the readers and the byte iterator of the indexed reader.
+// Model: the plain next() sequence of a second reader over the same bytes (decided by the round-trip sub-checks).
+pub mod io_proto {
+    use super::*;
+    use bio::io::{bed, fasta, fastq, gff};
+
+    #[derive(Serialize, Deserialize, Debug, Clone)]
+    pub struct Case {
+        /// 0 fasta, 1 fastq, 2 bed, 3 gff3, 4 IndexedReader::read_iter
+        pub kind: u8,
+        pub data: B,
+        pub script: Vec<ItOp>,
+    }
+
+    fn fx(r: std::io::Result<fasta::Record>) -> String {
+        match r {
+            Ok(r) => format!("Ok({:?} {:?} {:?})", r.id(), r.desc(), lossy(r.seq())),
+            Err(e) => format!("Err({:?})", e.kind()),
+        }
+    }
+    fn fq(r: Result<fastq::Record, fastq::Error>) -> String {
+        match r {
+            Ok(r) => format!("Ok({:?} {:?} {:?} {:?})", r.id(), r.desc(), lossy(r.seq()), lossy(r.qual())),
+            Err(_) => "Err".to_string(),
+        }
+    }
+    fn bd<E>(r: Result<bed::Record, E>) -> String {
+        match r {
+            Ok(r) => format!("Ok({:?} {} {} {:?} {:?})", r.chrom(), r.start(), r.end(), r.name(), r.score()),
+            Err(_) => "Err".to_string(),
+        }
+    }
+    fn gf<E>(r: Result<gff::Record, E>) -> String {
+        match r {
+            Ok(r) => {
+                let mut attrs: Vec<(String, Vec<String>)> = r.attributes().iter_all().map(|(k, v)| (k.clone(), v.clone())).collect();
+                attrs.sort();
+                format!("Ok({:?} {:?} {:?} {} {} {:?} {:?})", r.seqname(), r.source(), r.feature_type(), r.start(), r.end(), r.score(), attrs)
+            }
+            Err(_) => "Err".to_string(),
+        }
+    }
+
+    pub fn check(c: &Case) -> R {
+        let data: &[u8] = &c.data;
+        let cap = data.len() + 8;
+        let hdr = format!("{:?}", lossy(data));
+        let (o, n) = match c.kind {
+            0 => {
+                let model: Vec<String> = fasta::Reader::new(data).records().take(cap).map(fx).collect();
+                (drive(&format!("fasta::Reader::records() over {}", hdr), fasta::Reader::new(data).records(), model.clone(), fx, &c.script), model.len())
+            }
+            1 => {
+                let model: Vec<String> = fastq::Reader::new(data).records().take(cap).map(fq).collect();
+                (drive(&format!("fastq::Reader::records() over {}", hdr), fastq::Reader::new(data).records(), model.clone(), fq, &c.script), model.len())
+            }
+            2 => {
+                let mut r1 = bed::Reader::new(data);
+                let model: Vec<String> = r1.records().take(cap).map(bd).collect();
+                let mut r2 = bed::Reader::new(data);
+                (drive(&format!("bed::Reader::records() over {}", hdr), r2.records(), model.clone(), bd, &c.script), model.len())
+            }
+            3 => {
+                let mut r1 = gff::Reader::new(data, gff::GffType::GFF3);
+                let model: Vec<String> = r1.records().take(cap).map(gf).collect();
+                let mut r2 = gff::Reader::new(data, gff::GffType::GFF3);
+                (drive(&format!("gff::Reader::records() over {}", hdr), r2.records(), model.clone(), gf, &c.script), model.len())
+            }
+            _ => {
+                // data = the sequence; file ">s\n" + lines of 4 bases, fetch_all, read_iter
+                ensure!(!data.is_empty() && data.iter().all(|b| b.is_ascii_alphabetic()), "harness: sequence {:?}", hdr);
+                let mut file = b">s\n".to_vec();
+                for l in data.chunks(4) {
+                    file.extend_from_slice(l);
+                    file.push(b'\n');
+                }
+                let fai = format!("s\t{}\t3\t4\t5\n", data.len());
+                let open = || fasta::IndexedReader::new(std::io::Cursor::new(file.clone()), fai.as_bytes());
+                let (Ok(mut r1), Ok(mut r2)) = (open(), open()) else { fail!("IndexedReader::new rejects the index {:?}", fai) };
+                ensure!(r1.fetch_all("s").is_ok() && r2.fetch_all("s").is_ok(), "fetch_all(\"s\") failed on {:?}", lossy(&file));
+                let key = |r: std::io::Result<u8>| r.ok();
+                let (Ok(i1), Ok(i2)) = (r1.read_iter(), r2.read_iter()) else { fail!("read_iter() failed on {:?}", lossy(&file)) };
+                let model: Vec<Option<u8>> = i1.take(cap).map(key).collect();
+                ensure!(model.iter().map(|b| b.unwrap_or(0)).collect::<Vec<u8>>() == data, "read_iter() over {:?} yields {:?}", lossy(&file), model);
+                (drive(&format!("IndexedReader::read_iter() of all of {:?} (lines of 4)", hdr), i2, model.clone(), key, &c.script), model.len())
+            }
+        };
+        let o = o.map_err(Stop::Fail)?;
+        let mut pass = Pass::new(n >= 2);
+        proto_classes(&mut pass, &c.script, o.positional_after_advance, n);
+        pass.add(match c.kind {
+            0 => "fasta records",
+            1 => "fastq records",
+            2 => "bed records",
+            3 => "gff records",
+            _ => "indexed fasta read_iter",
+        });
+        Ok(pass)
+    }
+
+    pub fn strat(_t: Tier) -> BoxedStrategy<Case> {
+        let seqs = || proptest::collection::vec(proptest::collection::vec(proptest::sample::select(b"ACGT".to_vec()), 1..=9), 1..=6);
+        let data = prop_oneof![
+            seqs().prop_map(|v| (0u8, v.iter().enumerate().flat_map(|(i, s)| [format!(">r{} d{}\n", i, i).into_bytes(), s.clone(), b"\n".to_vec()].concat()).collect::<Vec<u8>>())),
+            seqs().prop_map(|v| (1u8, v.iter().enumerate().flat_map(|(i, s)| [format!("@r{}\n", i).into_bytes(), s.clone(), b"\n+\n".to_vec(), vec![b'I'; s.len()], b"\n".to_vec()].concat()).collect::<Vec<u8>>())),
+            seqs().prop_map(|v| (2u8, v.iter().enumerate().flat_map(|(i, s)| format!("chr{}\t{}\t{}\tn{}\t{}\n", i % 2, i, i + s.len(), i, s.len()).into_bytes()).collect::<Vec<u8>>())),
+            seqs().prop_map(|v| (3u8, v.iter().enumerate().flat_map(|(i, s)| format!("chr{}\tsrc\tgene\t{}\t{}\t.\t+\t.\tID=g{};Note=a,b\n", i % 2, i + 1, i + 1 + s.len(), i).into_bytes()).collect::<Vec<u8>>())),
+            proptest::collection::vec(proptest::sample::select(b"ACGTN".to_vec()), 1..=30).prop_map(|s| (4u8, s)),
+        ];
+        (data, script_strategy(8)).prop_map(|((kind, data), script)| Case { kind, data: B(data), script }).boxed()
+    }
+}
+
 pub fn extend(props: &mut [Property]) {
     for p in props.iter_mut() {
         match p.id {
             "C01" => p.subs.push(Box::new(PropSub { name: "C01/aliased-arguments", quick: 60_000, thorough: 1_200_000, shards_quick: 8, shards_thorough: 16, strat: c01_alias::strat, check: c01_alias::check, must_reach: &["same start address, different lengths", "the very same slice twice", "overlapping views"], watch: false })),
             "C02" => p.subs.push(Box::new(PropSub { name: "C02/aliased-arguments", quick: 60_000, thorough: 1_200_000, shards_quick: 8, shards_thorough: 16, strat: c02_alias::strat, check: crate::props::c02::check, must_reach: &["same start address, different lengths", "the very same slice twice", "overlapping views"], watch: true })),
+            "C07" => p.subs.push(Box::new(PropSub { name: "C07/iterator-protocol", quick: 60_000, thorough: 1_200_000, shards_quick: 8, shards_thorough: 16, strat: c07_proto::strat, check: c07_proto::check, must_reach: &["nth/skip/step_by on an already advanced iterator", "count/last/fold after next()"], watch: true })),
+            "C10" => p.subs.push(Box::new(PropSub { name: "C10/iterator-protocol", quick: 40_000, thorough: 800_000, shards_quick: 8, shards_thorough: 16, strat: c09_proto::strat, check: c09_proto::check, must_reach: &["nth/skip/step_by on an already advanced iterator", "count/last/fold after next()", "pattern longer than one u8 block"], watch: true })),
+            "C11" => p.subs.push(Box::new(PropSub { name: "C11/iterator-protocol", quick: 40_000, thorough: 800_000, shards_quick: 8, shards_thorough: 16, strat: io_proto::strat, check: io_proto::check, must_reach: &["nth/skip/step_by on an already advanced iterator", "count/last/fold after next()", "fasta records", "fastq records"], watch: true })),
+            "C12" => p.subs.push(Box::new(PropSub { name: "C12/iterator-protocol", quick: 40_000, thorough: 800_000, shards_quick: 8, shards_thorough: 16, strat: io_proto::strat, check: io_proto::check, must_reach: &["nth/skip/step_by on an already advanced iterator", "indexed fasta read_iter"], watch: true })),
+            "C13" => p.subs.push(Box::new(PropSub { name: "C13/iterator-protocol", quick: 40_000, thorough: 800_000, shards_quick: 8, shards_thorough: 16, strat: io_proto::strat, check: io_proto::check, must_reach: &["nth/skip/step_by on an already advanced iterator", "bed records", "gff records"], watch: true })),
             "C08" => p.subs.push(Box::new(PropSub { name: "C08/iterator-protocol", quick: 80_000, thorough: 1_600_000, shards_quick: 8, shards_thorough: 16, strat: c08_proto::strat, check: c08_proto::check, must_reach: &["nth/skip/step_by on an already advanced iterator", "count/last/fold after next()", "overlapping occurrences"], watch: true })),
             "C09" => p.subs.push(Box::new(PropSub { name: "C09/aliased-arguments", quick: 80_000, thorough: 1_600_000, shards_quick: 8, shards_thorough: 16, strat: c09_alias::strat, check: c09_alias::check, must_reach: &["same start address, different lengths", "the very same slice twice", "overlapping views"], watch: false })),
             "C18" => p.subs.push(Box::new(PropSub { name: "C18/iterator-protocol", quick: 80_000, thorough: 1_600_000, shards_quick: 8, shards_thorough: 16, strat: c18_proto::strat, check: c18_proto::check, must_reach: &["nth/skip/step_by on an already advanced iterator", "count/last/fold after next()", "step_by(>=2)"], watch: true })),
